@@ -605,7 +605,7 @@ package tengo
 //@ func (*Compiler).addConstant
 //@   props C02
 //@   mode panics-allowed parent-chain
-//@   assigns typeof(Compiler), heap(Object)
+//@   assigns fieldof(Compiler.constants), heap(Object)
 //@   ensures idx: result >= 0
 //@   ensures self_kept: c.scopeIndex == old(c.scopeIndex) && sameslice(c.scopes, old(c.scopes)) && c.symbolTable == old(c.symbolTable)
 
@@ -692,54 +692,57 @@ package tengo
 // ---------------------------------------------------------------------------
 
 //@ func (*Compiler).Compile
-//@   props C06
+//@   props C04
+//@   mode split-paths
 //@   requires cwf: c.file != nil && c.symbolTable != nil && c.modules != nil && 0 <= c.scopeIndex && c.scopeIndex == len(c.scopes) - 1
 //@                   && c.scopes[c.scopeIndex].SourceMap != nil
 //@   assigns * except c.scopes[c.scopeIndex].Instructions[*]
 //@   let ins0 = old(c.scopes[c.scopeIndex].Instructions)
 //@   let st0 = old(c.symbolTable)
+//@   maintain m_len{C02!}: callok && c.scopeIndex == old(c.scopeIndex) && sameslice(c.scopes, old(c.scopes)) ==> len(c.scopes[c.scopeIndex].Instructions) >= len(ins0)
+//@   maintain m_prefix{C02!}: callok && c.scopeIndex == old(c.scopeIndex) ==> forall i in 0..len(ins0) :: c.scopes[c.scopeIndex].Instructions[i] == old(c.scopes[c.scopeIndex].Instructions[i])
 //@   ensures keep{C02,C09,C11,C13}: result == nil ==> c.symbolTable == st0
 //@                   && c.scopeIndex == old(c.scopeIndex) && c.scopeIndex == len(c.scopes) - 1 && c.scopes[c.scopeIndex].SourceMap != nil
-//@   ensures grows{C02}: result == nil ==> len(c.scopes[c.scopeIndex].Instructions) >= len(ins0)
-//@   ensures array{C02}: result == nil ==> samearray(c.scopes[c.scopeIndex].Instructions, ins0) || fresh(c.scopes[c.scopeIndex].Instructions)
-//@   ensures below{C02}: result == nil ==> forall j in 0..c.scopeIndex ::
+//@   ensures grows{C02!}: result == nil ==> len(c.scopes[c.scopeIndex].Instructions) >= len(ins0)
+//@   ensures array{C02!}: result == nil ==> samearray(c.scopes[c.scopeIndex].Instructions, ins0) || fresh(c.scopes[c.scopeIndex].Instructions)
+//@   ensures below{C02!}: result == nil ==> forall j in 0..c.scopeIndex ::
 //@                   sameslice(c.scopes[j].Instructions, old(c.scopes[j].Instructions)) && c.scopes[j].SourceMap == old(c.scopes[j].SourceMap)
-//@   ensures prefix{C02}: result == nil ==> forall i in 0..len(ins0) :: c.scopes[c.scopeIndex].Instructions[i] == old(c.scopes[c.scopeIndex].Instructions[i])
+//@   ensures prefix{C02!}: result == nil ==> forall i in 0..len(ins0) :: c.scopes[c.scopeIndex].Instructions[i] == old(c.scopes[c.scopeIndex].Instructions[i])
 //@   ensures export_immutable{C09,C13}: is(node, *parser.ExportStmt) && result == nil && c.parent != nil
 //@              ==> len(c.scopes[c.scopeIndex].Instructions) >= 3
 //@                  && c.scopes[c.scopeIndex].Instructions[len(c.scopes[c.scopeIndex].Instructions)-3] == parser.OpImmutable
 //@                  && c.scopes[c.scopeIndex].Instructions[len(c.scopes[c.scopeIndex].Instructions)-2] == parser.OpReturn
 //@                  && c.scopes[c.scopeIndex].Instructions[len(c.scopes[c.scopeIndex].Instructions)-1] == 1
 //@   loop 0 invariant k: c.symbolTable == st0 && c.scopeIndex == old(c.scopeIndex) && c.scopeIndex == len(c.scopes) - 1 && c.scopes[c.scopeIndex].SourceMap != nil
-//@   loop 0 invariant g: len(c.scopes[c.scopeIndex].Instructions) >= len(ins0) && (samearray(c.scopes[c.scopeIndex].Instructions, ins0) || fresh(c.scopes[c.scopeIndex].Instructions))
-//@   loop 0 invariant b: forall j in 0..c.scopeIndex :: sameslice(c.scopes[j].Instructions, old(c.scopes[j].Instructions)) && c.scopes[j].SourceMap == old(c.scopes[j].SourceMap)
-//@   loop 0 invariant p: forall i in 0..len(ins0) :: c.scopes[c.scopeIndex].Instructions[i] == old(c.scopes[c.scopeIndex].Instructions[i])
+//@   loop 0 invariant g{C02!}: len(c.scopes[c.scopeIndex].Instructions) >= len(ins0) && (samearray(c.scopes[c.scopeIndex].Instructions, ins0) || fresh(c.scopes[c.scopeIndex].Instructions))
+//@   loop 0 invariant b{C02!}: forall j in 0..c.scopeIndex :: sameslice(c.scopes[j].Instructions, old(c.scopes[j].Instructions)) && c.scopes[j].SourceMap == old(c.scopes[j].SourceMap)
+//@   loop 0 invariant p{C02!}: forall i in 0..len(ins0) :: c.scopes[c.scopeIndex].Instructions[i] == old(c.scopes[c.scopeIndex].Instructions[i])
 //@   loop 1 invariant k: c.symbolTable != nil && c.symbolTable.parent == st0 && c.scopeIndex == old(c.scopeIndex) && c.scopeIndex == len(c.scopes) - 1 && c.scopes[c.scopeIndex].SourceMap != nil
-//@   loop 1 invariant g: len(c.scopes[c.scopeIndex].Instructions) >= len(ins0) && (samearray(c.scopes[c.scopeIndex].Instructions, ins0) || fresh(c.scopes[c.scopeIndex].Instructions))
-//@   loop 1 invariant b: forall j in 0..c.scopeIndex :: sameslice(c.scopes[j].Instructions, old(c.scopes[j].Instructions)) && c.scopes[j].SourceMap == old(c.scopes[j].SourceMap)
-//@   loop 1 invariant p: forall i in 0..len(ins0) :: c.scopes[c.scopeIndex].Instructions[i] == old(c.scopes[c.scopeIndex].Instructions[i])
+//@   loop 1 invariant g{C02!}: len(c.scopes[c.scopeIndex].Instructions) >= len(ins0) && (samearray(c.scopes[c.scopeIndex].Instructions, ins0) || fresh(c.scopes[c.scopeIndex].Instructions))
+//@   loop 1 invariant b{C02!}: forall j in 0..c.scopeIndex :: sameslice(c.scopes[j].Instructions, old(c.scopes[j].Instructions)) && c.scopes[j].SourceMap == old(c.scopes[j].SourceMap)
+//@   loop 1 invariant p{C02!}: forall i in 0..len(ins0) :: c.scopes[c.scopeIndex].Instructions[i] == old(c.scopes[c.scopeIndex].Instructions[i])
 //@   loop 2 invariant k: c.symbolTable == st0 && c.scopeIndex == old(c.scopeIndex) && c.scopeIndex == len(c.scopes) - 1 && c.scopes[c.scopeIndex].SourceMap != nil
-//@   loop 2 invariant g: len(c.scopes[c.scopeIndex].Instructions) >= len(ins0) && (samearray(c.scopes[c.scopeIndex].Instructions, ins0) || fresh(c.scopes[c.scopeIndex].Instructions))
-//@   loop 2 invariant b: forall j in 0..c.scopeIndex :: sameslice(c.scopes[j].Instructions, old(c.scopes[j].Instructions)) && c.scopes[j].SourceMap == old(c.scopes[j].SourceMap)
-//@   loop 2 invariant p: forall i in 0..len(ins0) :: c.scopes[c.scopeIndex].Instructions[i] == old(c.scopes[c.scopeIndex].Instructions[i])
+//@   loop 2 invariant g{C02!}: len(c.scopes[c.scopeIndex].Instructions) >= len(ins0) && (samearray(c.scopes[c.scopeIndex].Instructions, ins0) || fresh(c.scopes[c.scopeIndex].Instructions))
+//@   loop 2 invariant b{C02!}: forall j in 0..c.scopeIndex :: sameslice(c.scopes[j].Instructions, old(c.scopes[j].Instructions)) && c.scopes[j].SourceMap == old(c.scopes[j].SourceMap)
+//@   loop 2 invariant p{C02!}: forall i in 0..len(ins0) :: c.scopes[c.scopeIndex].Instructions[i] == old(c.scopes[c.scopeIndex].Instructions[i])
 //@   loop 3 invariant k: c.symbolTable == st0 && c.scopeIndex == old(c.scopeIndex) && c.scopeIndex == len(c.scopes) - 1 && c.scopes[c.scopeIndex].SourceMap != nil
-//@   loop 3 invariant g: len(c.scopes[c.scopeIndex].Instructions) >= len(ins0) && (samearray(c.scopes[c.scopeIndex].Instructions, ins0) || fresh(c.scopes[c.scopeIndex].Instructions))
-//@   loop 3 invariant b: forall j in 0..c.scopeIndex :: sameslice(c.scopes[j].Instructions, old(c.scopes[j].Instructions)) && c.scopes[j].SourceMap == old(c.scopes[j].SourceMap)
-//@   loop 3 invariant p: forall i in 0..len(ins0) :: c.scopes[c.scopeIndex].Instructions[i] == old(c.scopes[c.scopeIndex].Instructions[i])
+//@   loop 3 invariant g{C02!}: len(c.scopes[c.scopeIndex].Instructions) >= len(ins0) && (samearray(c.scopes[c.scopeIndex].Instructions, ins0) || fresh(c.scopes[c.scopeIndex].Instructions))
+//@   loop 3 invariant b{C02!}: forall j in 0..c.scopeIndex :: sameslice(c.scopes[j].Instructions, old(c.scopes[j].Instructions)) && c.scopes[j].SourceMap == old(c.scopes[j].SourceMap)
+//@   loop 3 invariant p{C02!}: forall i in 0..len(ins0) :: c.scopes[c.scopeIndex].Instructions[i] == old(c.scopes[c.scopeIndex].Instructions[i])
 //@   loop 6 invariant k: c.symbolTable == st0 && c.scopeIndex == old(c.scopeIndex) && c.scopeIndex == len(c.scopes) - 1 && c.scopes[c.scopeIndex].SourceMap != nil
-//@   loop 6 invariant g: len(c.scopes[c.scopeIndex].Instructions) >= len(ins0) && (samearray(c.scopes[c.scopeIndex].Instructions, ins0) || fresh(c.scopes[c.scopeIndex].Instructions))
-//@   loop 6 invariant b: forall j in 0..c.scopeIndex :: sameslice(c.scopes[j].Instructions, old(c.scopes[j].Instructions)) && c.scopes[j].SourceMap == old(c.scopes[j].SourceMap)
-//@   loop 6 invariant p: forall i in 0..len(ins0) :: c.scopes[c.scopeIndex].Instructions[i] == old(c.scopes[c.scopeIndex].Instructions[i])
+//@   loop 6 invariant g{C02!}: len(c.scopes[c.scopeIndex].Instructions) >= len(ins0) && (samearray(c.scopes[c.scopeIndex].Instructions, ins0) || fresh(c.scopes[c.scopeIndex].Instructions))
+//@   loop 6 invariant b{C02!}: forall j in 0..c.scopeIndex :: sameslice(c.scopes[j].Instructions, old(c.scopes[j].Instructions)) && c.scopes[j].SourceMap == old(c.scopes[j].SourceMap)
+//@   loop 6 invariant p{C02!}: forall i in 0..len(ins0) :: c.scopes[c.scopeIndex].Instructions[i] == old(c.scopes[c.scopeIndex].Instructions[i])
 //@   loop 4 invariant k: c.symbolTable != nil && c.symbolTable.parent == st0 && !c.symbolTable.block && c.scopeIndex == old(c.scopeIndex) + 1 && c.scopeIndex == len(c.scopes) - 1
 //@                   && c.scopes[c.scopeIndex].SourceMap != nil && c.scopes[c.scopeIndex].Instructions == nil
-//@   loop 4 invariant b: forall j in 0..old(c.scopeIndex)+1 :: sameslice(c.scopes[j].Instructions, old(c.scopes[j].Instructions)) && c.scopes[j].SourceMap == old(c.scopes[j].SourceMap)
+//@   loop 4 invariant b{C02!}: forall j in 0..old(c.scopeIndex)+1 :: sameslice(c.scopes[j].Instructions, old(c.scopes[j].Instructions)) && c.scopes[j].SourceMap == old(c.scopes[j].SourceMap)
 //@   loop 5 step preinit_defines{C11,C01}: continued && len(c.scopes[c.scopeIndex].Instructions) > it0(len(c.scopes[c.scopeIndex].Instructions))
 //@                   && c.scopes[c.scopeIndex].Instructions[it0(len(c.scopes[c.scopeIndex].Instructions))] == parser.OpNull
 //@              ==> c.scopes[c.scopeIndex].Instructions[it0(len(c.scopes[c.scopeIndex].Instructions))+1] == parser.OpDefineLocal
 //@   loop 5 invariant k: c.symbolTable == st0 && c.scopeIndex == old(c.scopeIndex) && c.scopeIndex == len(c.scopes) - 1 && c.scopes[c.scopeIndex].SourceMap != nil
-//@   loop 5 invariant g: len(c.scopes[c.scopeIndex].Instructions) >= len(ins0) && (samearray(c.scopes[c.scopeIndex].Instructions, ins0) || fresh(c.scopes[c.scopeIndex].Instructions))
-//@   loop 5 invariant b: forall j in 0..c.scopeIndex :: sameslice(c.scopes[j].Instructions, old(c.scopes[j].Instructions)) && c.scopes[j].SourceMap == old(c.scopes[j].SourceMap)
-//@   loop 5 invariant p: forall i in 0..len(ins0) :: c.scopes[c.scopeIndex].Instructions[i] == old(c.scopes[c.scopeIndex].Instructions[i])
+//@   loop 5 invariant g{C02!}: len(c.scopes[c.scopeIndex].Instructions) >= len(ins0) && (samearray(c.scopes[c.scopeIndex].Instructions, ins0) || fresh(c.scopes[c.scopeIndex].Instructions))
+//@   loop 5 invariant b{C02!}: forall j in 0..c.scopeIndex :: sameslice(c.scopes[j].Instructions, old(c.scopes[j].Instructions)) && c.scopes[j].SourceMap == old(c.scopes[j].SourceMap)
+//@   loop 5 invariant p{C02!}: forall i in 0..len(ins0) :: c.scopes[c.scopeIndex].Instructions[i] == old(c.scopes[c.scopeIndex].Instructions[i])
 
 // embedder-supplied module lookup: cannot reach compiler memory
 //@ func interface ModuleGetter.Get
@@ -775,7 +778,7 @@ package tengo
 // the statement compilers keep the same bookkeeping as Compile
 
 //@ func (*Compiler).compileForStmt
-//@   props C02
+//@   props C04
 //@   mode assumed needs the loop-record invariant (break/continue patch lists); see DESIGN.md C02
 //@   requires cwf: c.file != nil && c.symbolTable != nil && c.modules != nil && 0 <= c.scopeIndex && c.scopeIndex == len(c.scopes) - 1
 //@                   && c.scopes[c.scopeIndex].SourceMap != nil
@@ -784,14 +787,14 @@ package tengo
 //@   let st0 = old(c.symbolTable)
 //@   ensures keep{C02,C09,C11,C13}: result == nil ==> c.symbolTable == st0
 //@                   && c.scopeIndex == old(c.scopeIndex) && c.scopeIndex == len(c.scopes) - 1 && c.scopes[c.scopeIndex].SourceMap != nil
-//@   ensures grows{C02}: result == nil ==> len(c.scopes[c.scopeIndex].Instructions) >= len(ins0)
-//@   ensures array{C02}: result == nil ==> samearray(c.scopes[c.scopeIndex].Instructions, ins0) || fresh(c.scopes[c.scopeIndex].Instructions)
-//@   ensures below{C02}: result == nil ==> forall j in 0..c.scopeIndex ::
+//@   ensures grows{C02!}: result == nil ==> len(c.scopes[c.scopeIndex].Instructions) >= len(ins0)
+//@   ensures array{C02!}: result == nil ==> samearray(c.scopes[c.scopeIndex].Instructions, ins0) || fresh(c.scopes[c.scopeIndex].Instructions)
+//@   ensures below{C02!}: result == nil ==> forall j in 0..c.scopeIndex ::
 //@                   sameslice(c.scopes[j].Instructions, old(c.scopes[j].Instructions)) && c.scopes[j].SourceMap == old(c.scopes[j].SourceMap)
-//@   ensures prefix{C02}: result == nil ==> forall i in 0..len(ins0) :: c.scopes[c.scopeIndex].Instructions[i] == old(c.scopes[c.scopeIndex].Instructions[i])
+//@   ensures prefix{C02!}: result == nil ==> forall i in 0..len(ins0) :: c.scopes[c.scopeIndex].Instructions[i] == old(c.scopes[c.scopeIndex].Instructions[i])
 
 //@ func (*Compiler).compileForInStmt
-//@   props C02
+//@   props C04
 //@   mode assumed needs the loop-record invariant (break/continue patch lists); see DESIGN.md C02
 //@   requires cwf: c.file != nil && c.symbolTable != nil && c.modules != nil && 0 <= c.scopeIndex && c.scopeIndex == len(c.scopes) - 1
 //@                   && c.scopes[c.scopeIndex].SourceMap != nil
@@ -800,49 +803,55 @@ package tengo
 //@   let st0 = old(c.symbolTable)
 //@   ensures keep{C02,C09,C11,C13}: result == nil ==> c.symbolTable == st0
 //@                   && c.scopeIndex == old(c.scopeIndex) && c.scopeIndex == len(c.scopes) - 1 && c.scopes[c.scopeIndex].SourceMap != nil
-//@   ensures grows{C02}: result == nil ==> len(c.scopes[c.scopeIndex].Instructions) >= len(ins0)
-//@   ensures array{C02}: result == nil ==> samearray(c.scopes[c.scopeIndex].Instructions, ins0) || fresh(c.scopes[c.scopeIndex].Instructions)
-//@   ensures below{C02}: result == nil ==> forall j in 0..c.scopeIndex ::
+//@   ensures grows{C02!}: result == nil ==> len(c.scopes[c.scopeIndex].Instructions) >= len(ins0)
+//@   ensures array{C02!}: result == nil ==> samearray(c.scopes[c.scopeIndex].Instructions, ins0) || fresh(c.scopes[c.scopeIndex].Instructions)
+//@   ensures below{C02!}: result == nil ==> forall j in 0..c.scopeIndex ::
 //@                   sameslice(c.scopes[j].Instructions, old(c.scopes[j].Instructions)) && c.scopes[j].SourceMap == old(c.scopes[j].SourceMap)
-//@   ensures prefix{C02}: result == nil ==> forall i in 0..len(ins0) :: c.scopes[c.scopeIndex].Instructions[i] == old(c.scopes[c.scopeIndex].Instructions[i])
+//@   ensures prefix{C02!}: result == nil ==> forall i in 0..len(ins0) :: c.scopes[c.scopeIndex].Instructions[i] == old(c.scopes[c.scopeIndex].Instructions[i])
 
 //@ func (*Compiler).compileLogical
-//@   props C02
+//@   props C04
+//@   requires node != nil
 //@   requires cwf: c.file != nil && c.symbolTable != nil && c.modules != nil && 0 <= c.scopeIndex && c.scopeIndex == len(c.scopes) - 1
 //@                   && c.scopes[c.scopeIndex].SourceMap != nil
 //@   assigns * except c.scopes[c.scopeIndex].Instructions[*]
 //@   let ins0 = old(c.scopes[c.scopeIndex].Instructions)
 //@   let st0 = old(c.symbolTable)
+//@   maintain m_len{C02!}: callok && c.scopeIndex == old(c.scopeIndex) && sameslice(c.scopes, old(c.scopes)) ==> len(c.scopes[c.scopeIndex].Instructions) >= len(ins0)
+//@   maintain m_prefix{C02!}: callok && c.scopeIndex == old(c.scopeIndex) ==> forall i in 0..len(ins0) :: c.scopes[c.scopeIndex].Instructions[i] == old(c.scopes[c.scopeIndex].Instructions[i])
 //@   ensures keep{C02,C09,C11,C13}: result == nil ==> c.symbolTable == st0
 //@                   && c.scopeIndex == old(c.scopeIndex) && c.scopeIndex == len(c.scopes) - 1 && c.scopes[c.scopeIndex].SourceMap != nil
-//@   ensures grows{C02}: result == nil ==> len(c.scopes[c.scopeIndex].Instructions) >= len(ins0)
-//@   ensures array{C02}: result == nil ==> samearray(c.scopes[c.scopeIndex].Instructions, ins0) || fresh(c.scopes[c.scopeIndex].Instructions)
-//@   ensures below{C02}: result == nil ==> forall j in 0..c.scopeIndex ::
+//@   ensures grows{C02!}: result == nil ==> len(c.scopes[c.scopeIndex].Instructions) >= len(ins0)
+//@   ensures array{C02!}: result == nil ==> samearray(c.scopes[c.scopeIndex].Instructions, ins0) || fresh(c.scopes[c.scopeIndex].Instructions)
+//@   ensures below{C02!}: result == nil ==> forall j in 0..c.scopeIndex ::
 //@                   sameslice(c.scopes[j].Instructions, old(c.scopes[j].Instructions)) && c.scopes[j].SourceMap == old(c.scopes[j].SourceMap)
-//@   ensures prefix{C02}: result == nil ==> forall i in 0..len(ins0) :: c.scopes[c.scopeIndex].Instructions[i] == old(c.scopes[c.scopeIndex].Instructions[i])
+//@   ensures prefix{C02!}: result == nil ==> forall i in 0..len(ins0) :: c.scopes[c.scopeIndex].Instructions[i] == old(c.scopes[c.scopeIndex].Instructions[i])
 
 //@ func (*Compiler).compileAssign
-//@   props C02
+//@   props C04
+//@   requires len(lhs) >= 1 && len(rhs) >= 1
 //@   requires cwf: c.file != nil && c.symbolTable != nil && c.modules != nil && 0 <= c.scopeIndex && c.scopeIndex == len(c.scopes) - 1
 //@                   && c.scopes[c.scopeIndex].SourceMap != nil
 //@   assigns * except c.scopes[c.scopeIndex].Instructions[*]
 //@   let ins0 = old(c.scopes[c.scopeIndex].Instructions)
 //@   let st0 = old(c.symbolTable)
+//@   maintain m_len{C02!}: callok && c.scopeIndex == old(c.scopeIndex) && sameslice(c.scopes, old(c.scopes)) ==> len(c.scopes[c.scopeIndex].Instructions) >= len(ins0)
+//@   maintain m_prefix{C02!}: callok && c.scopeIndex == old(c.scopeIndex) ==> forall i in 0..len(ins0) :: c.scopes[c.scopeIndex].Instructions[i] == old(c.scopes[c.scopeIndex].Instructions[i])
 //@   ensures keep{C02,C09,C11,C13}: result == nil ==> c.symbolTable == st0
 //@                   && c.scopeIndex == old(c.scopeIndex) && c.scopeIndex == len(c.scopes) - 1 && c.scopes[c.scopeIndex].SourceMap != nil
-//@   ensures grows{C02}: result == nil ==> len(c.scopes[c.scopeIndex].Instructions) >= len(ins0)
-//@   ensures array{C02}: result == nil ==> samearray(c.scopes[c.scopeIndex].Instructions, ins0) || fresh(c.scopes[c.scopeIndex].Instructions)
-//@   ensures below{C02}: result == nil ==> forall j in 0..c.scopeIndex ::
+//@   ensures grows{C02!}: result == nil ==> len(c.scopes[c.scopeIndex].Instructions) >= len(ins0)
+//@   ensures array{C02!}: result == nil ==> samearray(c.scopes[c.scopeIndex].Instructions, ins0) || fresh(c.scopes[c.scopeIndex].Instructions)
+//@   ensures below{C02!}: result == nil ==> forall j in 0..c.scopeIndex ::
 //@                   sameslice(c.scopes[j].Instructions, old(c.scopes[j].Instructions)) && c.scopes[j].SourceMap == old(c.scopes[j].SourceMap)
-//@   ensures prefix{C02}: result == nil ==> forall i in 0..len(ins0) :: c.scopes[c.scopeIndex].Instructions[i] == old(c.scopes[c.scopeIndex].Instructions[i])
+//@   ensures prefix{C02!}: result == nil ==> forall i in 0..len(ins0) :: c.scopes[c.scopeIndex].Instructions[i] == old(c.scopes[c.scopeIndex].Instructions[i])
 //@   loop 0 invariant k: c.symbolTable == st0 && c.scopeIndex == old(c.scopeIndex) && c.scopeIndex == len(c.scopes) - 1 && c.scopes[c.scopeIndex].SourceMap != nil
-//@   loop 0 invariant g: len(c.scopes[c.scopeIndex].Instructions) >= len(ins0) && (samearray(c.scopes[c.scopeIndex].Instructions, ins0) || fresh(c.scopes[c.scopeIndex].Instructions))
-//@   loop 0 invariant b: forall j in 0..c.scopeIndex :: sameslice(c.scopes[j].Instructions, old(c.scopes[j].Instructions)) && c.scopes[j].SourceMap == old(c.scopes[j].SourceMap)
-//@   loop 0 invariant p: forall i in 0..len(ins0) :: c.scopes[c.scopeIndex].Instructions[i] == old(c.scopes[c.scopeIndex].Instructions[i])
+//@   loop 0 invariant g{C02!}: len(c.scopes[c.scopeIndex].Instructions) >= len(ins0) && (samearray(c.scopes[c.scopeIndex].Instructions, ins0) || fresh(c.scopes[c.scopeIndex].Instructions))
+//@   loop 0 invariant b{C02!}: forall j in 0..c.scopeIndex :: sameslice(c.scopes[j].Instructions, old(c.scopes[j].Instructions)) && c.scopes[j].SourceMap == old(c.scopes[j].SourceMap)
+//@   loop 0 invariant p{C02!}: forall i in 0..len(ins0) :: c.scopes[c.scopeIndex].Instructions[i] == old(c.scopes[c.scopeIndex].Instructions[i])
 //@   loop 1 invariant k: c.symbolTable == st0 && c.scopeIndex == old(c.scopeIndex) && c.scopeIndex == len(c.scopes) - 1 && c.scopes[c.scopeIndex].SourceMap != nil
-//@   loop 1 invariant g: len(c.scopes[c.scopeIndex].Instructions) >= len(ins0) && (samearray(c.scopes[c.scopeIndex].Instructions, ins0) || fresh(c.scopes[c.scopeIndex].Instructions))
-//@   loop 1 invariant b: forall j in 0..c.scopeIndex :: sameslice(c.scopes[j].Instructions, old(c.scopes[j].Instructions)) && c.scopes[j].SourceMap == old(c.scopes[j].SourceMap)
-//@   loop 1 invariant p: forall i in 0..len(ins0) :: c.scopes[c.scopeIndex].Instructions[i] == old(c.scopes[c.scopeIndex].Instructions[i])
+//@   loop 1 invariant g{C02!}: len(c.scopes[c.scopeIndex].Instructions) >= len(ins0) && (samearray(c.scopes[c.scopeIndex].Instructions, ins0) || fresh(c.scopes[c.scopeIndex].Instructions))
+//@   loop 1 invariant b{C02!}: forall j in 0..c.scopeIndex :: sameslice(c.scopes[j].Instructions, old(c.scopes[j].Instructions)) && c.scopes[j].SourceMap == old(c.scopes[j].SourceMap)
+//@   loop 1 invariant p{C02!}: forall i in 0..len(ins0) :: c.scopes[c.scopeIndex].Instructions[i] == old(c.scopes[c.scopeIndex].Instructions[i])
 
 //@ func resolveAssignLHS
 //@   assigns nothing
